@@ -135,7 +135,9 @@ fn(A + ".run", params={}, model_opts=VIEWS,
        # C13.alpn: the protocol is chosen from what TLS negotiated; cleartext connections are HTTP/1.1 openings
        ("C13.alpn.server", "implies(call_index('ProtocolWrapper.__init__') >= 0, "
         "call_args('ProtocolWrapper.__init__')[6] == (self.writer.ssl_object is not None) and "
-        "implies(self.writer.ssl_object is None, call_args('ProtocolWrapper.__init__')[10] == 'http/1.1'))", "C13,C16"),
+        "implies(self.writer.ssl_object is None, call_args('ProtocolWrapper.__init__')[10] == 'http/1.1') and "
+        # ... and under TLS exactly what was negotiated (nothing negotiated = HTTP/1.x, not a server-side preference)
+        "implies(self.writer.ssl_object is not None, call_args('ProtocolWrapper.__init__')[10] == self.writer.ssl_object.selected_alpn_protocol()))", "C13,C16"),
    ],
    props=("C07", "C16", "C14", "C13"))
 
@@ -197,6 +199,7 @@ fn(T + ".run", params={}, model_opts=VIEWS,
    # stream is then closed by trio.serve_listeners, which closes it when the handler returns (assumed)
    ensures=[c if c[0] != "C07.finally.closed" else ("C07.finally.closed", "call_index('TCPServer._close') >= 0 or (self.stream.is_ssl and 'handshake' not in net_ops())", "C07,C16") for c in RUN_CLAUSES("TrioSingleTask")] + [
        ("C13.alpn.server", "implies(call_index('ProtocolWrapper.__init__') >= 0, "
-        "call_args('ProtocolWrapper.__init__')[6] == self.stream.is_ssl and implies(not self.stream.is_ssl, call_args('ProtocolWrapper.__init__')[10] == 'http/1.1'))", "C13,C16"),
+        "call_args('ProtocolWrapper.__init__')[6] == self.stream.is_ssl and implies(not self.stream.is_ssl, call_args('ProtocolWrapper.__init__')[10] == 'http/1.1') "
+        "and implies(self.stream.is_ssl, call_args('ProtocolWrapper.__init__')[10] == self.stream.alpn))", "C13,C16"),
    ],
    props=("C07", "C16", "C14", "C13"))
